@@ -318,8 +318,16 @@ def _weights(ck: Check, repo: Repo) -> None:
     st = [n for n in walk_no_nested(sm.node) if isinstance(n, ast.Assign) and isinstance(n.targets[0], ast.Subscript) and const_value(n.targets[0].slice) in ("idxs", "weights")]
     for n in st:
         key = const_value(n.targets[0].slice)
-        src = ast.unparse(n.value)
-        ok = src.startswith("indices") if key == "idxs" else src.startswith("weights")
+        # role of the stored value: the local defined by the _sample_proportional call (idxs) / the _calculate_weights call (weights)
+        base = n.value
+        while isinstance(base, (ast.Call, ast.Attribute, ast.Subscript)):
+            base = base.func.value if isinstance(base, ast.Call) and isinstance(base.func, ast.Attribute) else (base.value if not isinstance(base, ast.Call) else base.func)
+        want = (sp[0] if sp else None) if key == "idxs" else (cw[0] if cw else None)
+        ok = False
+        nn = scfg.node_of(n)
+        if isinstance(base, ast.Name) and want is not None and nn is not None:
+            vals = [scfg.value_of_def(d, base.id) for d in scfg.defs_reaching(nn, base.id)]
+            ok = bool(vals) and all(v is want for v in vals)
         ck.ob("C11.5", sm, n, ok, f"batch['{key}'] carries the sampled {key}")
     beta = [c for c in cw if len(c.args) == 2 and dotted(c.args[1]) == "beta"]
     ck.ob("C11.5", sm, cw[0] if cw else sm.node, bool(beta), "the caller's beta is the exponent used")
